@@ -547,7 +547,14 @@ func (fr *Frame) invoke(x *ssa.Call, recv Value, method string, args []Value) Va
 			if !ok {
 				it.abortf("hash.Write of %s in %s", show(args[0]), fr.fn)
 			}
-			h.Pending = append(append([]Seg{}, h.Pending...), segs...)
+			for _, g := range segs {
+				if g.Bytes == nil {
+					if k, isC := it.ApplyTerm(g.Len).IsConst(); isC && k.Sign() == 0 {
+						continue // nothing is absorbed for a string that is empty on this path
+					}
+				}
+				h.Pending = append(append([]Seg{}, h.Pending...), g)
+			}
 			n := it.lenTerm(args[0])
 			var nv Value = Top{Why: "n"}
 			if n != nil {
@@ -676,6 +683,31 @@ func (it *Interp) stdlib(fr *Frame, x *ssa.Call, fn *ssa.Function, args []Value)
 				hi := pureFunc(func(v []*big.Int) *big.Int { return new(big.Int).Rsh(v[0], 64) }, s)
 				return Tuple{termValue(lo), termValue(hi)}
 			}
+			// adding a constant limb by limb (x + (2^256 - m), the carry telling x >= m): the chain is the borrow chain
+			// of x - (2^256 - K) with carry = 1 - borrow, exactly, limb for limb
+			for i := 0; i < 2; i++ {
+				x, k := a, b
+				if i == 1 {
+					x, k = b, a
+				}
+				kc, isK := k.IsConst()
+				if !isK || kc.Sign() < 0 || kc.BitLen() > 64 {
+					continue
+				}
+				if _, xc := x.IsConst(); xc {
+					continue
+				}
+				if c0, isC := c.IsConst(); isC && c0.Sign() == 0 && kc.Sign() != 0 {
+					d, bo := Sub64(x, TConst(new(big.Int).Sub(two64, kc)), TInt(0))
+					return Tuple{termValue(d), termValue(TInt(1).Sub(bo))}
+				}
+				if bp := TInt(1).Sub(c).SinglePred(); bp != nil {
+					if _, has := A.borrow[bp]; has {
+						d, bo := Sub64(x, TConst(new(big.Int).Sub(mask64, kc)), TPred(bp))
+						return Tuple{termValue(d), termValue(TInt(1).Sub(bo))}
+					}
+				}
+			}
 			return Tuple{TermV{WOp(64, "add64.sum", a, b, c)}, TermV{BIT(WOp(64, "add64.carry", a, b, c), 0)}}
 		}
 	case "math/bits.Mul64":
@@ -690,8 +722,10 @@ func (it *Interp) stdlib(fr *Frame, x *ssa.Call, fn *ssa.Function, args []Value)
 			}
 			return Tuple{TermV{WOp(64, "mul64.hi", a, b)}, TermV{WOp(64, "mul64.lo", a, b)}}
 		}
-	case "encoding/binary.bigEndian.Uint64", "encoding/binary.bigEndian.Uint32", "encoding/binary.bigEndian.Uint16":
+	case "encoding/binary.bigEndian.Uint64", "encoding/binary.bigEndian.Uint32", "encoding/binary.bigEndian.Uint16",
+		"encoding/binary.littleEndian.Uint64", "encoding/binary.littleEndian.Uint32", "encoding/binary.littleEndian.Uint16":
 		n := map[string]int{"Uint64": 8, "Uint32": 4, "Uint16": 2}[fn.Name()]
+		le := strings.Contains(key, "littleEndian")
 		if s, ok := it.asSlice(args[1]); ok {
 			if l, isC := it.ApplyTerm(s.Len).IsConst(); isC && int(l.Int64()) >= n {
 				t := TInt(0)
@@ -702,7 +736,11 @@ func (it *Interp) stdlib(fr *Frame, x *ssa.Call, fn *ssa.Function, args []Value)
 						good = false
 						break
 					}
-					t = t.Add(b.Scale(pow2(8 * (n - 1 - k))))
+					if le {
+						t = t.Add(b.Scale(pow2(8 * k)))
+					} else {
+						t = t.Add(b.Scale(pow2(8 * (n - 1 - k))))
+					}
 				}
 				if good {
 					return termValue(t.Recompose())
@@ -711,13 +749,19 @@ func (it *Interp) stdlib(fr *Frame, x *ssa.Call, fn *ssa.Function, args []Value)
 				panic(&goPanic{val: KStr("index out of range"), fn: fr.fn, pos: x.Pos()})
 			}
 		}
-	case "encoding/binary.bigEndian.PutUint64", "encoding/binary.bigEndian.PutUint32", "encoding/binary.bigEndian.PutUint16":
+	case "encoding/binary.bigEndian.PutUint64", "encoding/binary.bigEndian.PutUint32", "encoding/binary.bigEndian.PutUint16",
+		"encoding/binary.littleEndian.PutUint64", "encoding/binary.littleEndian.PutUint32", "encoding/binary.littleEndian.PutUint16":
 		n := map[string]int{"PutUint64": 8, "PutUint32": 4, "PutUint16": 2}[fn.Name()]
+		le := strings.Contains(key, "littleEndian")
 		if s, ok := it.asSlice(args[1]); ok {
 			if v, ok := asTerm(args[2]); ok {
 				if l, isC := it.ApplyTerm(s.Len).IsConst(); isC && int(l.Int64()) >= n {
 					for k := 0; k < n; k++ {
-						it.storeValue(s.Arr.Kids[s.Lo+k], termValue(ByteOf(v, n-1-k)))
+						if le {
+							it.storeValue(s.Arr.Kids[s.Lo+k], termValue(ByteOf(v, k)))
+						} else {
+							it.storeValue(s.Arr.Kids[s.Lo+k], termValue(ByteOf(v, n-1-k)))
+						}
 					}
 					return nil
 				} else if isC {
@@ -725,15 +769,103 @@ func (it *Interp) stdlib(fr *Frame, x *ssa.Call, fn *ssa.Function, args []Value)
 				}
 			}
 		}
-	case "encoding/binary.bigEndian.AppendUint64", "encoding/binary.bigEndian.AppendUint32", "encoding/binary.bigEndian.AppendUint16":
+	case "encoding/binary.bigEndian.AppendUint64", "encoding/binary.bigEndian.AppendUint32", "encoding/binary.bigEndian.AppendUint16",
+		"encoding/binary.littleEndian.AppendUint64", "encoding/binary.littleEndian.AppendUint32", "encoding/binary.littleEndian.AppendUint16":
 		n := map[string]int{"AppendUint64": 8, "AppendUint32": 4, "AppendUint16": 2}[fn.Name()]
+		le := strings.Contains(key, "littleEndian")
 		if v, ok := asTerm(args[2]); ok {
 			o := it.NewArrayObject(types.Typ[types.Uint8], n, "be", false)
 			for k := 0; k < n; k++ {
-				o.Root.Kids[k].Val = termValue(ByteOf(v, n-1-k))
+				if le {
+					o.Root.Kids[k].Val = termValue(ByteOf(v, k))
+				} else {
+					o.Root.Kids[k].Val = termValue(ByteOf(v, n-1-k))
+				}
 			}
 			tail := SliceV{Arr: o.Root, Lo: 0, Len: TInt(int64(n)), Cap: n}
 			return fr.appendValues(x.Type(), args[1], tail)
+		}
+	case "slices.Reverse":
+		if sv, ok := it.asSlice(args[0]); ok {
+			if l, isC := it.ApplyTerm(sv.Len).IsConst(); isC {
+				n := int(l.Int64())
+				if sv.Arr.Rep != nil {
+					it.materialise(sv.Arr)
+				}
+				vals := make([]Value, n)
+				for i := 0; i < n; i++ {
+					vals[i] = it.loadValue(sv.Arr.Kids[sv.Lo+i])
+				}
+				for i := 0; i < n; i++ {
+					it.storeValue(sv.Arr.Kids[sv.Lo+i], vals[n-1-i])
+				}
+				return nil
+			}
+		}
+	case "encoding/hex.EncodedLen":
+		if t, ok := asTerm(args[0]); ok {
+			return termValue(it.ApplyTerm(t).Scale(big.NewInt(2)))
+		}
+	case "encoding/hex.DecodedLen":
+		if t, ok := asTerm(args[0]); ok {
+			if k, isC := it.ApplyTerm(t).IsConst(); isC {
+				return KInt{new(big.Int).Rsh(k, 1)}
+			}
+			return termValue(WOp(64, "shr", it.ApplyTerm(t), TInt(1)))
+		}
+	case "encoding/hex.Decode":
+		// hex.Decode(make([]byte, hex.DecodedLen(len(h))), []byte(h)) is hex.DecodeString(h)
+		if src, ok := it.rd(args[1]).(AbsSlice); ok && len(src.Segs) == 1 && strings.HasPrefix(src.Segs[0].Name, "str:") {
+			if bd, isBuf := args[0].(BufRef); isBuf {
+				name := strings.TrimPrefix(src.Segs[0].Name, "str:")
+				want := WOp(64, "shr", it.ApplyTerm(src.Segs[0].Len), TInt(1))
+				if cur, isA := bd.C.Val.(AbsSlice); isA && len(cur.Segs) == 1 && cur.Segs[0].Zeros && it.ApplyTerm(cur.Segs[0].Len).Equal(want) {
+					out := SymBytes("unhex(" + name + ")")
+					it.setCell(bd.C, out)
+					return Tuple{termValue(out.Length()), SymIface{IsNil: SymBool("hexvalid(" + name + ")"), Name: "hex error"}}
+				}
+			}
+		}
+	case "encoding/hex.AppendEncode":
+		if segs, ok := it.sliceSegs(args[1]); ok {
+			ns := normSegs(segs)
+			var src []*Term
+			if len(ns) == 1 && ns[0].Bytes != nil {
+				src = ns[0].Bytes
+			}
+			if len(ns) == 0 || src != nil {
+				o := it.NewArrayObject(types.Typ[types.Uint8], 2*len(src), "hex", false)
+				for i, b := range src {
+					o.Root.Kids[2*i].Val = TermV{WOp(8, "hexhi", b)}
+					o.Root.Kids[2*i+1].Val = TermV{WOp(8, "hexlo", b)}
+				}
+				tail := SliceV{Arr: o.Root, Lo: 0, Len: TInt(int64(2 * len(src))), Cap: 2 * len(src)}
+				return fr.appendValues(x.Type(), args[0], tail)
+			}
+		} else if sv, ok := args[1].(SliceV); ok {
+			// a source of symbolic length over a concrete backing array (Encode's result), appended to an empty buffer
+			if dl := it.lenTerm(args[0]); dl != nil {
+				if k, isC := dl.IsConst(); isC && k.Sign() == 0 {
+					_, hi := it.ApplyTerm(sv.Len).Bounds()
+					n := int(hi.Int64())
+					if hi.IsInt64() && n <= 4096 && sv.Lo+n <= len(sv.Arr.Kids) {
+						o := it.NewArrayObject(types.Typ[types.Uint8], 2*n, "hex", false)
+						good := true
+						for i := 0; i < n; i++ {
+							b, okB := asTerm(it.loadValue(sv.Arr.Kids[sv.Lo+i]))
+							if !okB {
+								good = false
+								break
+							}
+							o.Root.Kids[2*i].Val = TermV{WOp(8, "hexhi", b)}
+							o.Root.Kids[2*i+1].Val = TermV{WOp(8, "hexlo", b)}
+						}
+						if good {
+							return SliceV{Arr: o.Root, Lo: 0, Len: it.ApplyTerm(sv.Len).Scale(big.NewInt(2)), Cap: 2 * n}
+						}
+					}
+				}
+			}
 		}
 	case "encoding/hex.Encode":
 		if d, ok := it.asSlice(args[0]); ok {
@@ -862,6 +994,45 @@ func (it *Interp) stdlib(fr *Frame, x *ssa.Call, fn *ssa.Function, args []Value)
 		h := &HashObj{ID: it.nobj, Alg: 5}
 		it.Hashes = append(it.Hashes, h)
 		return Iface{Dyn: HashRef{h}}
+	case "bytes.Join":
+		// concatenation of byte strings with an empty separator
+		if sep, okS := it.sliceSegs(args[1]); okS && len(sep) == 0 {
+			if sv, okV := it.rd(args[0]).(SliceV); okV {
+				if n, isC := it.ApplyTerm(sv.Len).IsConst(); isC {
+					var segs []Seg
+					good := true
+					for i := 0; i < int(n.Int64()); i++ {
+						part, okP := it.sliceSegs(it.loadValue(sv.Arr.Kids[sv.Lo+i]))
+						if !okP {
+							good = false
+							break
+						}
+						segs = append(segs, part...)
+					}
+					if good {
+						return AbsSlice{Segs: normSegs(segs)}
+					}
+				}
+			}
+		}
+	case "crypto/sha256.Sum256":
+		if segs, okS := it.sliceSegs(args[0]); okS {
+			var pend []Seg
+			for _, g := range segs {
+				if g.Bytes == nil {
+					if k, isC := it.ApplyTerm(g.Len).IsConst(); isC && k.Sign() == 0 {
+						continue
+					}
+				}
+				pend = append(pend, g)
+			}
+			d := HashDigest(5, pend)
+			o := it.NewArrayObject(types.Typ[types.Uint8], 32, "digest", false)
+			for i := range o.Root.Kids {
+				o.Root.Kids[i].Val = termValue(ByteOf(d, 31-i))
+			}
+			return Agg{o.Root}
+		}
 	case "crypto.Hash.Available":
 		// the registry linkage itself (the hash package is in the import closure of the library) is C17's rule
 		if k, ok := args[0].(KInt); ok && k.V.Int64() == 5 {
